@@ -262,6 +262,86 @@ func RunStream(c *Ctx, cfg StreamCfg, handle func(w *Worker, sc StrCase, res *[s
 			}
 		})
 	}
+	// CONFIGURATION WALK: the canonical vector of every configuration of the optional metrics (v2.0: all
+	// 192,000 x 3 base backgrounds; v3.0/v3.1: 221,184,000 each; v4.0: 1,179,648,000 threat+environmental
+	// configurations, supplemental seeded) -- complete in thorough, a seeded fraction of the chunks in quick
+	if cfg.Cover {
+		for vi, v := range spec.Versions {
+			vi, v := vi, v
+			var opt []int
+			for m, me := range v.Metrics {
+				if !me.Mandatory && me.Group != spec.GSupp {
+					opt = append(opt, m)
+				}
+			}
+			pre := 3
+			if v.ID == spec.V40 {
+				pre = 4
+			}
+			nChunks := 1
+			for _, m := range opt[:pre] {
+				nChunks *= len(v.Metrics[m].Values)
+			}
+			stride := 1
+			capPerChunk := int64(1) << 62
+			if c.Quick {
+				// quick: a few chunks, each cut after 60,000 configurations
+				capPerChunk = 60000
+				switch v.ID {
+				case spec.V20:
+					stride = 10
+				case spec.V40:
+					stride = 64
+				default:
+					stride = 25
+				}
+			} else if v.ID == spec.V40 {
+				stride = 8 // thorough: v2, v3.0, v3.1 complete; v4.0 one chunk in 8 (147 M configurations)
+			}
+			off := c.Rand("walk-offset", v.Name).Intn(stride)
+			walk := opt[pre:]
+			c.Parallel("configuration-walk-"+v.Name, (nChunks-off+stride-1)/stride, 1, func(w *Worker, k int) {
+				ci := off + k*stride
+				a := gen.KSparseAssign(w.R, v, 0)
+				for mI, me := range v.Metrics {
+					if me.Group == spec.GSupp {
+						a[mI] = uint8(w.R.Intn(len(me.Values)))
+					}
+				}
+				x := ci
+				for _, m := range opt[:pre] {
+					n := len(v.Metrics[m].Values)
+					a[m] = uint8(x % n)
+					x /= n
+				}
+				n := len(walk)
+				dig, foc, dir := make([]int, n), make([]int, n+1), make([]int, n)
+				for j := range foc {
+					foc[j] = j
+				}
+				for j := range dir {
+					dir[j] = 1
+				}
+				var visited int64
+				for {
+					do(w, StrCase{v.Canonical(a), vi, "configuration-walk"})
+					visited++
+					j := foc[0]
+					foc[0] = 0
+					if j == n || c.nviolA.Load() > 1000 || visited >= capPerChunk {
+						break
+					}
+					dig[j] += dir[j]
+					if dig[j] == 0 || dig[j] == len(v.Metrics[walk[j]].Values)-1 {
+						dir[j] = -dir[j]
+						foc[j] = foc[j+1]
+						foc[j+1] = j + 1
+					}
+					a[walk[j]] = uint8(dig[j])
+				}
+			})
+		}
+	}
 	// very long and degenerate inputs
 	{
 		var long []StrCase
